@@ -160,10 +160,12 @@ InvFitted == AtEnd /\ result \in {"same", "fitted"} =>
   /\ OrderAndFieldsKept(T, out)
   /\ RenamingBijective(T, out)
   /\ SerialsDistinct(out)
-\* design lemma: the renumbering leaves a free serial for the TER after every chain run
+\* design lemma: the renumbering leaves a free serial for the TER after every chain run; for the last
+\* run only when chains do not interleave (Check1 counts chains, not chain runs: with interleaved
+\* chains the TER after the last atom can need serial MaxSerial + 1 -- not part of the C10 statement)
 InvTerSerialFree == AtEnd /\ result = "fitted" =>
   /\ \A i \in 2..Len(out) : out[i].chain # out[i - 1].chain => out[i].serial >= out[i - 1].serial + 2
-  /\ Len(out) > 0 => out[Len(out)].serial + 1 <= MaxSerial
+  /\ Len(out) > 0 /\ ChainRuns(T) = Cardinality(ChainSet(T)) => out[Len(out)].serial + 1 <= MaxSerial
 \* the three feasibility tests agree with the existence statement except for tables whose chains
 \* interleave (more chain runs than chains), where the safeguard inside the loop refuses
 InvChecksVsExistence == AtEnd /\ result = "ValueError" =>
